@@ -88,6 +88,13 @@ func c07Trans(c *Ctx, pre *Node, st Step, res *Result, post *State) ([]Violation
 		}
 		return vs, len(vs) == 0 && res.Exit != 0
 	}
+	if res.Exit == 0 {
+		// immediately after a successful commit the staged-changes list is empty: the new snapshot equals the staging area
+		if T, err := qa.Snapshot(qa.Tip()); err == nil && qa.IndexErr == nil && !mapsEqual(T, qa.IndexMap()) {
+			return []Violation{{Oracle: "after-commit-nothing-staged", Command: "commit", Tags: st.Tags,
+				Detail: "right after a successful commit the staging area differs from the new HEAD snapshot: " + diffStrMaps("snapshot vs staging area", qa.IndexMap(), T, nil)}}, false
+		}
+	}
 	if res.Exit != 0 {
 		o := "staged-difference-commits"
 		if res.Panicked() {
@@ -99,7 +106,7 @@ func c07Trans(c *Ctx, pre *Node, st Step, res *Result, post *State) ([]Violation
 }
 
 func checkC07(e *RunEnv) *CheckResult {
-	names := []string{"test/x", "test/y", "test.c", "test-data", "test0", "t", "test/s/z", "tests/w"}
+	names := []string{"test/x", "test/y", "test.c", "test-data", "test0", "t", "test/s/z", "test/s/w", "tests/w"}
 	spec := &Spec{
 		Seeds: []Seed{{"S0", seedS0()}, {"S1-one-file", append(seedS0(), Write("t", v1("t")), Run("add", "t"), Run("commit", "-m", "c1"))}, {"S1-six-names", append(seedS0(), Write("test/x", v1("test/x")), Write("test/y", v1("test/y")), Write("test.c", v1("test.c")),
 			Write("test-data", v1("test-data")), Write("test0", v1("test0")), Write("t", v1("t")), Write("test/s/z", v1("test/s/z")), Write("tests/w", v1("tests/w")), Run("add", "test", "test.c", "test-data", "test0", "t", "tests"), Run("commit", "-m", "c1"))}},
